@@ -13,9 +13,9 @@ base/Tree.vos base/Tree.vok base/Tree.required_vos: base/Tree.v
 base/Types.vo base/Types.glob base/Types.v.beautified base/Types.required_vo: base/Types.v 
 base/Types.vio: base/Types.v 
 base/Types.vos base/Types.vok base/Types.required_vos: base/Types.v 
-extract/Api.vo extract/Api.glob extract/Api.v.beautified extract/Api.required_vo: extract/Api.v gen/T_zobrist.vo base/Bits.vo base/Types.vo base/BitBoard.vo geom/Geometry.vo geom/GenFns.vo geom/Lookup.vo model/Score.vo model/Abi.vo model/Text.vo model/Tracing.vo
-extract/Api.vio: extract/Api.v gen/T_zobrist.vio base/Bits.vio base/Types.vio base/BitBoard.vio geom/Geometry.vio geom/GenFns.vio geom/Lookup.vio model/Score.vio model/Abi.vio model/Text.vio model/Tracing.vio
-extract/Api.vos extract/Api.vok extract/Api.required_vos: extract/Api.v gen/T_zobrist.vos base/Bits.vos base/Types.vos base/BitBoard.vos geom/Geometry.vos geom/GenFns.vos geom/Lookup.vos model/Score.vos model/Abi.vos model/Text.vos model/Tracing.vos
+extract/Api.vo extract/Api.glob extract/Api.v.beautified extract/Api.required_vo: extract/Api.v gen/T_zobrist.vo base/Bits.vo base/Types.vo base/BitBoard.vo geom/Geometry.vo geom/GenFns.vo geom/Lookup.vo model/Score.vo model/Abi.vo model/Text.vo model/Tracing.vo spec/Rules.vo model/Board.vo model/MoveGen.vo model/Apply.vo model/Fen.vo
+extract/Api.vio: extract/Api.v gen/T_zobrist.vio base/Bits.vio base/Types.vio base/BitBoard.vio geom/Geometry.vio geom/GenFns.vio geom/Lookup.vio model/Score.vio model/Abi.vio model/Text.vio model/Tracing.vio spec/Rules.vio model/Board.vio model/MoveGen.vio model/Apply.vio model/Fen.vio
+extract/Api.vos extract/Api.vok extract/Api.required_vos: extract/Api.v gen/T_zobrist.vos base/Bits.vos base/Types.vos base/BitBoard.vos geom/Geometry.vos geom/GenFns.vos geom/Lookup.vos model/Score.vos model/Abi.vos model/Text.vos model/Tracing.vos spec/Rules.vos model/Board.vos model/MoveGen.vos model/Apply.vos model/Fen.vos
 extract/Extract.vo extract/Extract.glob extract/Extract.v.beautified extract/Extract.required_vo: extract/Extract.v extract/Api.vo
 extract/Extract.vio: extract/Extract.v extract/Api.vio
 extract/Extract.vos extract/Extract.vok extract/Extract.required_vos: extract/Extract.v extract/Api.vos
@@ -67,6 +67,18 @@ geom/Magic.vos geom/Magic.vok geom/Magic.required_vos: geom/Magic.v base/Bits.vo
 model/Abi.vo model/Abi.glob model/Abi.v.beautified model/Abi.required_vo: model/Abi.v model/Score.vo
 model/Abi.vio: model/Abi.v model/Score.vio
 model/Abi.vos model/Abi.vok model/Abi.required_vos: model/Abi.v model/Score.vos
+model/Apply.vo model/Apply.glob model/Apply.v.beautified model/Apply.required_vo: model/Apply.v base/Bits.vo base/Types.vo base/BitBoard.vo geom/Geometry.vo model/Board.vo model/MoveGen.vo
+model/Apply.vio: model/Apply.v base/Bits.vio base/Types.vio base/BitBoard.vio geom/Geometry.vio model/Board.vio model/MoveGen.vio
+model/Apply.vos model/Apply.vok model/Apply.required_vos: model/Apply.v base/Bits.vos base/Types.vos base/BitBoard.vos geom/Geometry.vos model/Board.vos model/MoveGen.vos
+model/Board.vo model/Board.glob model/Board.v.beautified model/Board.required_vo: model/Board.v base/Bits.vo base/Types.vo base/BitBoard.vo geom/Geometry.vo gen/T_zobrist.vo spec/Rules.vo
+model/Board.vio: model/Board.v base/Bits.vio base/Types.vio base/BitBoard.vio geom/Geometry.vio gen/T_zobrist.vio spec/Rules.vio
+model/Board.vos model/Board.vok model/Board.required_vos: model/Board.v base/Bits.vos base/Types.vos base/BitBoard.vos geom/Geometry.vos gen/T_zobrist.vos spec/Rules.vos
+model/Fen.vo model/Fen.glob model/Fen.v.beautified model/Fen.required_vo: model/Fen.v base/Bits.vo base/Types.vo base/BitBoard.vo geom/Geometry.vo model/Board.vo
+model/Fen.vio: model/Fen.v base/Bits.vio base/Types.vio base/BitBoard.vio geom/Geometry.vio model/Board.vio
+model/Fen.vos model/Fen.vok model/Fen.required_vos: model/Fen.v base/Bits.vos base/Types.vos base/BitBoard.vos geom/Geometry.vos model/Board.vos
+model/MoveGen.vo model/MoveGen.glob model/MoveGen.v.beautified model/MoveGen.required_vo: model/MoveGen.v base/Bits.vo base/Types.vo base/BitBoard.vo geom/Geometry.vo model/Board.vo
+model/MoveGen.vio: model/MoveGen.v base/Bits.vio base/Types.vio base/BitBoard.vio geom/Geometry.vio model/Board.vio
+model/MoveGen.vos model/MoveGen.vok model/MoveGen.required_vos: model/MoveGen.v base/Bits.vos base/Types.vos base/BitBoard.vos geom/Geometry.vos model/Board.vos
 model/Score.vo model/Score.glob model/Score.v.beautified model/Score.required_vo: model/Score.v 
 model/Score.vio: model/Score.v 
 model/Score.vos model/Score.vok model/Score.required_vos: model/Score.v 
@@ -121,3 +133,6 @@ props/C19.vos props/C19.vok props/C19.required_vos: props/C19.v model/Text.vos p
 props/C20.vo props/C20.glob props/C20.v.beautified props/C20.required_vo: props/C20.v model/Tracing.vo proofs/TracingFacts.vo
 props/C20.vio: props/C20.v model/Tracing.vio proofs/TracingFacts.vio
 props/C20.vos props/C20.vok props/C20.required_vos: props/C20.v model/Tracing.vos proofs/TracingFacts.vos
+spec/Rules.vo spec/Rules.glob spec/Rules.v.beautified spec/Rules.required_vo: spec/Rules.v base/Bits.vo base/Types.vo geom/Geometry.vo
+spec/Rules.vio: spec/Rules.v base/Bits.vio base/Types.vio geom/Geometry.vio
+spec/Rules.vos spec/Rules.vok spec/Rules.required_vos: spec/Rules.v base/Bits.vos base/Types.vos geom/Geometry.vos
